@@ -2,113 +2,204 @@
 
 package ipmi
 
-// Contracts for the layer decoders (machine-checked by /verif/engine; see
-// /verif/DESIGN.md). A block with only `props` puts the function under the
-// zero-annotation safety sweep of C05 (index/slice/nil/division/termination
-// obligations for every input) and under the generated non-interference
-// obligations of C17.
+// Contracts for the layer decoders of pkg/ipmi (machine-checked by
+// /verif/engine; see /verif/DESIGN.md). Every block puts its function under
+// the zero-annotation safety sweep of C05 and, where `C17` is listed, under
+// the generated non-interference obligations. The `C07.*` clauses state the
+// wire layout of IPMI v2.0 rev 1.1 (section numbers in the comments) in terms
+// of the received bytes, independently of the code's statement order.
 
-// ---- aes_128_cbc.go
+// ---- aes_128_cbc.go (13.29)
 
 //@ func (*AES128CBC).NextLayerType
 //@ props C05
 
 //@ func (*AES128CBC).DecodeFromBytes
-//@ props C05 C17
+//@ props C05 C17 C04 C07
 //@ config a.cipher
 //@ requires [aes.cipher] !isnil(a.cipher) // object invariant established by NewAES128CBC, the only constructor
 //@ invariant 0 [aes.padscan] padStart <= i && i <= padStart+int(padBytes) && v == uint8(i-padStart)+1 &&
 //@    forall(qk, padStart, i, data[qk] == uint8(qk-padStart)+1)
+//@ ensures [C07.aes-short] len(data) < 17 || len(data)%16 != 0 ==> result != nil
+//@ ensures [C04.aes-pad] result == nil ==> int(data[len(data)-1]) <= 16 && int(data[len(data)-1]) <= len(data)-17 &&
+//@    forall(qk, 0, int(data[len(data)-1]), data[len(data)-1-int(data[len(data)-1])+qk] == uint8(qk)+1)
+//@ ensures [C07.aes-payload] result == nil ==> aliases(a.Contents, data, 0, 16) && aliases(a.Payload, data, 16, len(data)-1-int(data[len(data)-1]))
 
-// ---- authentication_payload.go
+// ---- payloads of the Open Session messages (13.17, 13.18)
 
 //@ func (*AuthenticationPayload).Deserialise
-//@ props C05 C17
+//@ props C05 C17 C07
+//@ assigns a.Wildcard, a.Algorithm
+//@ ensures [C07.authpayload-reject] len(d) < 8 || d[0] != 0 ==> result1 != nil
+//@ ensures [C07.authpayload] result1 == nil ==> a.Wildcard == (d[3] == 0) && a.Algorithm == AuthenticationAlgorithm(d[4]%64) && aliases(result0, d, 8, len(d))
+//@ ensures [C07.authpayload-wildcard] len(d) >= 8 && d[0] == 0 && d[3] == 0 && d[4]%64 != 0 ==> result1 != nil
 
-// ---- confidentiality_payload.go
+//@ func (*IntegrityPayload).Deserialise
+//@ props C05 C17 C07
+//@ assigns i.Wildcard, i.Algorithm
+//@ ensures [C07.integpayload-reject] len(d) < 8 || d[0] != 1 ==> result1 != nil
+//@ ensures [C07.integpayload] result1 == nil ==> i.Wildcard == (d[3] == 0) && i.Algorithm == IntegrityAlgorithm(d[4]%64) && aliases(result0, d, 8, len(d))
 
 //@ func (*ConfidentialityPayload).Deserialise
-//@ props C05 C17
+//@ props C05 C17 C07
+//@ assigns c.Wildcard, c.Algorithm
+//@ ensures [C07.confpayload-reject] len(d) < 8 || d[0] != 2 ==> result1 != nil
+//@ ensures [C07.confpayload] result1 == nil ==> c.Wildcard == (d[3] == 0) && c.Algorithm == ConfidentialityAlgorithm(d[4]%64) && aliases(result0, d, 8, len(d))
 
-// ---- full_sensor_record.go
+// ---- full_sensor_record.go (43.1; data[k] is byte k+6 of the table)
 
 //@ func (*FullSensorRecord).NextLayerType
 //@ props C05
 
 //@ func (*FullSensorRecord).DecodeFromBytes
-//@ props C05 C17
+//@ props C05 C17 C07
+//@ ensures [C07.fsr-short] len(data) < 43 ==> result != nil
+//@ ensures [C07.fsr-key] result == nil ==> r.OwnerAddress == Address(data[0]) && r.Channel == Channel(data[1]/16) && r.OwnerLUN == LUN(data[1]%4) && r.Number == data[2]
+//@ ensures [C07.fsr-entity] result == nil ==> r.Entity == EntityID(data[3]) && r.IsContainerEntity == bit(data[4], 7) && r.Instance == EntityInstance(data[4]%128)
+//@ ensures [C07.fsr-type] result == nil ==> r.Ignore == bit(data[6], 7) && r.SensorType == SensorType(data[7]) && r.OutputType == OutputType(data[8])
+//@ ensures [C07.fsr-units] result == nil ==> r.AnalogDataFormat == AnalogDataFormat(data[15]/64) && r.RateUnit == RateUnit(data[15]/8%8) &&
+//@    r.IsPercentage == bit(data[15], 0) && r.BaseUnit == SensorUnit(data[16]) && r.ModifierUnit == SensorUnit(data[17])
+//@ ensures [C07.fsr-lin] result == nil ==> r.Linearisation == Linearisation(data[18]%128)
+//@ ensures [C07.fsr-m] result == nil ==> r.M == specSigned(uint16(data[20]/64)*256+uint16(data[19]), 10) && r.Tolerance == data[20]%64
+//@ ensures [C07.fsr-b] result == nil ==> r.B == specSigned(uint16(data[22]/64)*256+uint16(data[21]), 10)
+//@ ensures [C07.fsr-accuracy] result == nil ==> r.Accuracy == specSigned(uint16(data[23]/16)*64+uint16(data[22]%64), 10) &&
+//@    r.AccuracyExp == data[23]/4%4 && r.Direction == SensorDirection(data[23]%4)
+//@ ensures [C07.fsr-exp] result == nil ==> int16(r.RExp) == specSigned(uint16(data[24]/16), 4) && int16(r.BExp) == specSigned(uint16(data[24]%16), 4)
+//@ ensures [C07.fsr-flags] result == nil ==> r.NominalReadingSpecified == bit(data[25], 0) && r.NormalMaxSpecified == bit(data[25], 1) && r.NormalMinSpecified == bit(data[25], 2)
+//@ ensures [C07.fsr-readings] result == nil ==> r.NominalReading == data[26] && r.NormalMax == data[27] && r.NormalMin == data[28] && r.SensorMax == data[29] && r.SensorMin == data[30]
+//@ ensures [C07.fsr-idlen] result == nil ==> len(r.Identity) == int(data[42]%32)
+//@ ensures [C07.fsr-id8bit] result == nil && (data[42]/64 == 3 || data[42]/64 == 0) ==> forall(qk, 0, int(data[42]%32), r.Identity[qk] == data[43+qk])
+//@ ensures [C07.fsr-idbcd] result == nil && data[42]/64 == 1 ==> forall(qk, 0, int(data[42]%32), r.Identity[qk] == specBCDPlusChar(data[43+qk/2], qk))
+//@ ensures [C07.fsr-idpacked] result == nil && data[42]/64 == 2 ==> forall(qk, 0, int(data[42]%32), r.Identity[qk] == specPacked6Char(data[43:], qk))
+//@ ensures [C07.fsr-idshort] len(data) >= 43 && data[42]/64 == 1 && len(data)-43 < (int(data[42]%32)+1)/2 ==> result != nil
+//@ ensures [C07.fsr-emptyid] len(data) >= 43 && data[42]%32 == 0 ==> result == nil && len(r.Identity) == 0 // zero-length ID string, any encoding
 
-// ---- get_channel_authentication_capabilities.go
+// ---- get_channel_authentication_capabilities.go (22.13)
 
 //@ func (*GetChannelAuthenticationCapabilitiesRsp).NextLayerType
 //@ props C05
 
 //@ func (*GetChannelAuthenticationCapabilitiesRsp).DecodeFromBytes
-//@ props C05 C17
+//@ props C05 C17 C07
+//@ ensures [C07.authcap-accept] (result == nil) == (len(data) >= 8)
+//@ ensures [C07.authcap-types] result == nil ==> g.Channel == Channel(data[0]) && g.ExtendedCapabilities == bit(data[1], 7) && g.AuthenticationTypeOEM == bit(data[1], 5) &&
+//@    g.AuthenticationTypePassword == bit(data[1], 4) && g.AuthenticationTypeMD5 == bit(data[1], 2) && g.AuthenticationTypeMD2 == bit(data[1], 1) && g.AuthenticationTypeNone == bit(data[1], 0)
+//@ ensures [C07.authcap-status] result == nil ==> g.TwoKeyLogin == bit(data[2], 5) && g.PerMessageAuthentication == bit(data[2], 4) && g.UserLevelAuthentication == bit(data[2], 3) &&
+//@    g.NonNullUsernamesEnabled == bit(data[2], 2) && g.NullUsernamesEnabled == bit(data[2], 1) && g.AnonymousLoginEnabled == bit(data[2], 0)
+//@ ensures [C07.authcap-ext] result == nil ==> g.SupportsV2 == bit(data[3], 1) && g.SupportsV1 == bit(data[3], 0) && uint32(g.OEM) == le24(data, 4) && g.OEMData == data[7]
+//@ ensures [C07.authcap-layer] result == nil ==> aliases(g.Contents, data, 0, 8) && aliases(g.Payload, data, 8, len(data))
 
-// ---- get_channel_cipher_suites.go
+// ---- get_channel_cipher_suites.go (22.15)
 
 //@ func (*GetChannelCipherSuitesRsp).NextLayerType
 //@ props C05
 
 //@ func (*GetChannelCipherSuitesRsp).DecodeFromBytes
-//@ props C05 C17
+//@ props C05 C17 C07 C16
+//@ ensures [C07.suites-accept] (result == nil) == (len(data) >= 1)
+//@ ensures [C07.suites-chunk] result == nil ==> c.Channel == Channel(data[0]) && aliases(c.CipherSuiteRecordsChunk, data, 1, ite(len(data) > 17, 17, len(data)))
+//@ ensures [C07.suites-layer] result == nil ==> aliases(c.Contents, data, 0, ite(len(data) > 17, 17, len(data))) && aliases(c.Payload, data, ite(len(data) > 17, 17, len(data)), len(data))
 
-// ---- get_chassis_status.go
+// ---- get_chassis_status.go (28.2)
 
 //@ func (*GetChassisStatusRsp).NextLayerType
 //@ props C05
 
 //@ func (*GetChassisStatusRsp).DecodeFromBytes
-//@ props C05 C17
+//@ props C05 C17 C07
+//@ ensures [C07.chassis-accept] (result == nil) == (len(data) >= 3)
+//@ ensures [C07.chassis-power] result == nil ==> s.PowerRestorePolicy == PowerRestorePolicy(data[0]/32%4) && s.PowerControlFault == bit(data[0], 4) && s.PowerFault == bit(data[0], 3) &&
+//@    s.Interlock == bit(data[0], 2) && s.PowerOverload == bit(data[0], 1) && s.PoweredOn == bit(data[0], 0)
+//@ ensures [C07.chassis-last] result == nil ==> s.PoweredOnByIPMI == bit(data[1], 4) && s.LastPowerDownFault == bit(data[1], 3) && s.LastPowerDownInterlock == bit(data[1], 2) &&
+//@    s.LastPowerDownOverload == bit(data[1], 1) && s.LastPowerDownSupplyFailure == bit(data[1], 0)
+//@ ensures [C07.chassis-misc] result == nil ==> s.ChassisIdentifyState == ite(bit(data[2], 6), ChassisIdentifyState(data[2]/16%4), ChassisIdentifyStateUnknown) &&
+//@    s.CoolingFault == bit(data[2], 3) && s.DriveFault == bit(data[2], 2) && s.Lockout == bit(data[2], 1) && s.Intrusion == bit(data[2], 0)
+//@ ensures [C07.chassis-buttons] result == nil && len(data) > 3 ==> s.StandbyButtonDisableAllowed == bit(data[3], 7) && s.DiagnosticInterruptButtonDisableAllowed == bit(data[3], 6) &&
+//@    s.ResetButtonDisableAllowed == bit(data[3], 5) && s.PowerOffButtonDisableAllowed == bit(data[3], 4) && s.StandbyButtonDisabled == bit(data[3], 3) &&
+//@    s.DiagnosticInterruptButtonDisabled == bit(data[3], 2) && s.ResetButtonDisabled == bit(data[3], 1) && s.PowerOffButtonDisabled == bit(data[3], 0)
+//@ ensures [C07.chassis-nobuttons] result == nil && len(data) == 3 ==> !s.StandbyButtonDisableAllowed && !s.DiagnosticInterruptButtonDisableAllowed && !s.ResetButtonDisableAllowed &&
+//@    !s.PowerOffButtonDisableAllowed && !s.StandbyButtonDisabled && !s.DiagnosticInterruptButtonDisabled && !s.ResetButtonDisabled && !s.PowerOffButtonDisabled
+//@ ensures [C07.chassis-layer] result == nil ==> aliases(s.Contents, data, 0, ite(len(data) > 3, 4, 3)) && aliases(s.Payload, data, ite(len(data) > 3, 4, 3), len(data))
 
-// ---- get_device_id.go
+// ---- get_device_id.go (20.1)
 
 //@ func (*GetDeviceIDRsp).NextLayerType
 //@ props C05
 
 //@ func (*GetDeviceIDRsp).DecodeFromBytes
-//@ props C05 C17
+//@ props C05 C17 C07
+//@ ensures [C07.devid-accept] (result == nil) == (len(data) >= 11)
+//@ ensures [C07.devid-id] result == nil ==> g.ID == data[0] && g.ProvidesSDRs == bit(data[1], 7) && g.Revision == data[1]%16 && g.Available == !bit(data[2], 7) &&
+//@    g.MajorFirmwareRevision == data[2]%128 && g.MinorFirmwareRevision == (data[3]/16)*10+data[3]%16
+//@ ensures [C07.devid-version] result == nil ==> g.MajorIPMIVersion == data[4]%16 && g.MinorIPMIVersion == data[4]/16
+//@ ensures [C07.devid-support] result == nil ==> g.SupportsChassisDevice == bit(data[5], 7) && g.SupportsBridgeDevice == bit(data[5], 6) && g.SupportsIPMBEventGeneratorDevice == bit(data[5], 5) &&
+//@    g.SupportsIPMBEventReceiverDevice == bit(data[5], 4) && g.SupportsFRUInventoryDevice == bit(data[5], 3) && g.SupportsSELDevice == bit(data[5], 2) &&
+//@    g.SupportsSDRRepositoryDevice == bit(data[5], 1) && g.SupportsSensorDevice == bit(data[5], 0)
+//@ ensures [C07.devid-ids] result == nil ==> uint32(g.Manufacturer) == le24(data, 6) && g.Product == le16(data, 9)
+//@ ensures [C07.devid-aux] result == nil ==> forall(qk, 0, 4, g.AuxiliaryFirmwareRevision[qk] == ite(11+qk < len(data), data[11+qk], uint8(0)))
+//@ ensures [C07.devid-layer] result == nil ==> aliases(g.Contents, data, 0, len(data))
 
-// ---- get_sdr.go
+// ---- get_sdr.go (33.12)
 
 //@ func (*GetSDRRsp).NextLayerType
 //@ props C05
 
 //@ func (*GetSDRRsp).DecodeFromBytes
-//@ props C05 C17
+//@ props C05 C17 C07 C14
+//@ ensures [C07.getsdr-accept] (result == nil) == (len(data) >= 2)
+//@ ensures [C07.getsdr] result == nil ==> uint16(s.Next) == le16(data, 0) && aliases(s.Contents, data, 0, 2) && aliases(s.Payload, data, 2, len(data))
 
-// ---- get_sdr_repository_info.go
+// ---- get_sdr_repository_info.go (33.9)
 
 //@ func (*GetSDRRepositoryInfoRsp).NextLayerType
 //@ props C05
 
 //@ func (*GetSDRRepositoryInfoRsp).DecodeFromBytes
-//@ props C05 C17
+//@ props C05 C17 C07 C14
+//@ ensures [C07.repoinfo-accept] (result == nil) == (len(data) >= 14)
+//@ ensures [C07.repoinfo-counts] result == nil ==> i.Version == specBCDVersion(data[0]) && i.Records == le16(data, 1) && i.FreeSpace == le16(data, 3)
+//@ ensures [C07.repoinfo-times] result == nil ==> i.LastAddition.Unix() == int64(le32(data, 5)) && i.LastErase.Unix() == int64(le32(data, 9))
+//@ ensures [C07.repoinfo-support] result == nil ==> i.Overflow == bit(data[13], 7) && i.SupportsModalUpdate == bit(data[13], 6) && i.SupportsNonModalUpdate == bit(data[13], 5) &&
+//@    i.SupportsDelete == bit(data[13], 3) && i.SupportsPartialAdd == bit(data[13], 2) && i.SupportsReserve == bit(data[13], 1) && i.SupportsGetAllocationInformation == bit(data[13], 0)
+//@ ensures [C07.repoinfo-layer] result == nil ==> aliases(i.Contents, data, 0, 14) && aliases(i.Payload, data, 14, len(data))
 
-// ---- get_sensor_reading.go
+// ---- get_sensor_reading.go (35.14)
 
 //@ func (*GetSensorReadingRsp).NextLayerType
 //@ props C05
 
 //@ func (*GetSensorReadingRsp).DecodeFromBytes
-//@ props C05 C17
+//@ props C05 C17 C07 C15
+//@ ensures [C07.reading-accept] (result == nil) == (len(data) >= 3)
+//@ ensures [C07.reading] result == nil ==> r.Reading == data[0] && r.EventMessagesEnabled == bit(data[1], 7) && r.ScanningEnabled == bit(data[1], 6) && r.ReadingUnavailable == bit(data[1], 5)
+//@ ensures [C07.reading-layer] result == nil ==> aliases(r.Contents, data, 0, ite(len(data) > 3, 4, 3)) && aliases(r.Payload, data, ite(len(data) > 3, 4, 3), len(data))
 
-// ---- get_session_info.go
+// ---- get_session_info.go (22.20)
 
 //@ func (*GetSessionInfoRsp).NextLayerType
 //@ props C05
 
 //@ func (*GetSessionInfoRsp).DecodeFromBytes
-//@ props C05 C17
+//@ props C05 C17 C07
+//@ ensures [C07.sessinfo-short] len(data) < 3 ==> result != nil
+//@ ensures [C07.sessinfo-short-active] len(data) >= 3 && len(data) < 6 && !(data[0] == 0 && len(data) == 3) ==> result != nil
+//@ ensures [C07.sessinfo-accept] len(data) >= 6 || (len(data) == 3 && data[0] == 0) ==> result == nil
+//@ ensures [C07.sessinfo-head] result == nil ==> g.Handle == SessionHandle(data[0]) && g.Max == data[1] && g.Active == data[2]
+//@ ensures [C07.sessinfo-none] result == nil && len(data) == 3 ==> g.UserID == 0 && g.PrivilegeLevel == 0 && !g.IsIPMIv2 && g.Channel == 0 && len(g.IP) == 0 && len(g.MAC) == 0 && g.Port == 0
+//@ ensures [C07.sessinfo-user] result == nil && len(data) >= 6 ==> g.UserID == data[3]%64 && g.PrivilegeLevel == PrivilegeLevel(data[4]%16) && g.IsIPMIv2 == (data[5]/16 == 1) && g.Channel == Channel(data[5]%16)
+//@ ensures [C07.sessinfo-nolan] result == nil && len(data) >= 6 && len(data) < 18 ==> len(g.IP) == 0 && len(g.MAC) == 0 && g.Port == 0
+//@ ensures [C07.sessinfo-lan] result == nil && len(data) >= 18 ==> len(g.IP) == 16 && forall(qk, 0, 4, g.IP[12+qk] == data[6+qk]) && forall(qk, 0, 10, g.IP[qk] == 0) && g.IP[10] == 0xff && g.IP[11] == 0xff &&
+//@    len(g.MAC) == 6 && forall(qk, 0, 6, g.MAC[qk] == data[10+qk]) && g.Port == le16(data, 16)
 
-// ---- get_system_guid.go
+// ---- get_system_guid.go (22.14)
 
 //@ func (*GetSystemGUIDRsp).NextLayerType
 //@ props C05
 
 //@ func (*GetSystemGUIDRsp).DecodeFromBytes
-//@ props C05 C17
+//@ props C05 C17 C07
+//@ ensures [C07.guid-accept] (result == nil) == (len(data) >= 16)
+//@ ensures [C07.guid] result == nil ==> forall(qk, 0, 16, g.GUID[qk] == data[qk]) && aliases(g.Contents, data, 0, 16)
 
 // ---- id_string.go
 
@@ -120,81 +211,115 @@ package ipmi
 //@ assigns nothing
 //@ ensures [C07.strdec-consumed] result2 == nil ==> 0 <= result1 && result1 <= len(b)
 
-// ---- integrity_payload.go
-
-//@ func (*IntegrityPayload).Deserialise
-//@ props C05 C17
-
-// ---- message.go
+// ---- message.go (13.8)
 
 //@ func (*Message).NextLayerType
 //@ props C05
 
 //@ func (*Message).DecodeFromBytes
-//@ props C05 C17
+//@ props C05 C17 C07 C11
+//@ ensures [C07.msg-short] len(data) < 7 ==> result != nil
+//@ ensures [C07.msg-checksum1] len(data) >= 7 && data[2] != -bsum8(data, 0, 2) ==> result != nil
+//@ ensures [C07.msg-checksum2] len(data) >= 7 && data[len(data)-1] != -bsum8(data, 3, len(data)-1) ==> result != nil
+//@ ensures [C07.msg-short-response] len(data) == 7 && data[1]/4%2 == 1 ==> result != nil
+//@ ensures [C07.msg-addr] result == nil ==> m.RemoteAddress == Address(data[0]) && m.Function == NetworkFunction(data[1]/4) && m.RemoteLUN == LUN(data[1]%4) &&
+//@    m.LocalAddress == Address(data[3]) && m.Sequence == data[4]/4 && m.LocalLUN == LUN(data[4]%4) && m.Command == CommandNumber(data[5])
+//@ ensures [C07.msg-checksums] result == nil ==> m.Checksum1 == data[2] && m.Checksum2 == data[len(data)-1]
+//@ ensures [C07.msg-code] result == nil ==> m.CompletionCode == ite(data[1]/4%2 == 1, CompletionCode(data[6]), CompletionCode(0))
+//@ ensures [C07.msg-body] result == nil && (data[1]/4 == 0x2c || data[1]/4 == 0x2d) ==> m.Body == BodyCode(data[6+int(data[1]/4%2)]) && m.Enterprise == 0 &&
+//@    aliases(m.Payload, data, 7+int(data[1]/4%2), len(data)-1)
+//@ ensures [C07.msg-oem] result == nil && (data[1]/4 == 0x2e || data[1]/4 == 0x2f) ==> uint32(m.Enterprise) == le24(data, 6+int(data[1]/4%2)) && m.Body == 0 &&
+//@    aliases(m.Payload, data, 9+int(data[1]/4%2), len(data)-1)
+//@ ensures [C07.msg-plain] result == nil && data[1]/4 < 0x2c ==> m.Body == 0 && m.Enterprise == 0 && aliases(m.Payload, data, 6+int(data[1]/4%2), len(data)-1)
+//@ ensures [C07.msg-accept] len(data) >= 11 && data[2] == -bsum8(data, 0, 2) && data[len(data)-1] == -bsum8(data, 3, len(data)-1) ==> result == nil
 
-// ---- open_session.go
+// ---- open_session.go (13.18)
 
 //@ func (*OpenSessionRsp).NextLayerType
 //@ props C05
 
 //@ func (*OpenSessionRsp).DecodeFromBytes
-//@ props C05 C17
+//@ props C05 C17 C07 C02 C12
+//@ ensures [C07.opensess-short] len(data) == 0 || (len(data) > 1 && len(data) < 7) ==> result != nil
+//@ ensures [C07.opensess-oklen] len(data) >= 7 && data[1] == 0 && len(data) != 36 ==> result != nil
+//@ ensures [C07.opensess-onebyte] len(data) == 1 && data[0] == 0 ==> result != nil
+//@ ensures [C07.opensess-err] result == nil && len(data) >= 7 && data[1] != 0 ==> o.Tag == data[0] && o.Status == StatusCode(data[1]) && o.RemoteConsoleSessionID == le32(data, 3) &&
+//@    o.MaxPrivilegeLevel == 0 && o.ManagedSystemSessionID == 0
+//@ ensures [C07.opensess-ok] result == nil && len(data) == 36 && data[1] == 0 ==> o.Tag == data[0] && o.Status == StatusCodeOK && o.MaxPrivilegeLevel == PrivilegeLevel(data[2]) &&
+//@    o.RemoteConsoleSessionID == le32(data, 4) && o.ManagedSystemSessionID == le32(data, 8)
+//@ ensures [C07.opensess-algs] result == nil && len(data) == 36 && data[1] == 0 ==> o.AuthenticationPayload.Algorithm == AuthenticationAlgorithm(data[16]%64) &&
+//@    o.IntegrityPayload.Algorithm == IntegrityAlgorithm(data[24]%64) && o.ConfidentialityPayload.Algorithm == ConfidentialityAlgorithm(data[32]%64)
+//@ ensures [C07.opensess-types] len(data) == 36 && data[1] == 0 && (data[12] != 0 || data[20] != 1 || data[28] != 2) ==> result != nil
 
-// ---- operation.go
+// ---- operation.go, payload_descriptor.go, record_type.go
 
 //@ func Operation.NextLayerType
 //@ props C05
 
-// ---- payload_descriptor.go
-
 //@ func PayloadDescriptor.NextLayerType
 //@ props C05
 
-// ---- rakp_message_1.go
+//@ func RecordType.NextLayerType
+//@ props C05
+
+// ---- rakp_message_1.go (13.20)
 
 //@ func (*RAKPMessage1).NextLayerType
 //@ props C05
 
 //@ func (*RAKPMessage1).DecodeFromBytes
-//@ props C05 C17
+//@ props C05 C17 C07 C08
+//@ ensures [C07.rakp1-short] len(data) < 28 ==> result != nil
+//@ ensures [C07.rakp1-name] len(data) >= 28 && (data[27] > 16 || len(data) < 28+int(data[27])) ==> result != nil
+//@ ensures [C07.rakp1] result == nil ==> r.Tag == data[0] && r.ManagedSystemSessionID == le32(data, 4) && forall(qk, 0, 16, r.RemoteConsoleRandom[qk] == data[8+qk]) &&
+//@    r.MaxPrivilegeLevel == PrivilegeLevel(data[24]%16) && r.PrivilegeLevelLookup == !bit(data[24], 4) &&
+//@    len(r.Username) == int(data[27]) && forall(qk, 0, int(data[27]), r.Username[qk] == data[28+qk])
 
-// ---- rakp_message_2.go
+// ---- rakp_message_2.go (13.21)
 
 //@ func (*RAKPMessage2).NextLayerType
 //@ props C05
 
 //@ func (*RAKPMessage2).DecodeFromBytes
-//@ props C05 C17
+//@ props C05 C17 C07 C02
+//@ ensures [C07.rakp2-short] len(data) < 8 || (data[1] == 0 && len(data) < 40) ==> result != nil
+//@ ensures [C07.rakp2-accept] len(data) >= 40 || (len(data) >= 8 && data[1] != 0) ==> result == nil
+//@ ensures [C07.rakp2-head] result == nil ==> r.Tag == data[0] && r.Status == StatusCode(data[1]) && r.RemoteConsoleSessionID == le32(data, 4)
+//@ ensures [C07.rakp2-ok] result == nil && data[1] == 0 ==> forall(qk, 0, 16, r.ManagedSystemRandom[qk] == data[8+qk]) && forall(qk, 0, 16, r.ManagedSystemGUID[qk] == data[24+qk]) &&
+//@    sameBytes(r.AuthCode, data, 40, len(data)-40)
+//@ ensures [C07.rakp2-err] result == nil && data[1] != 0 ==> forall(qk, 0, 16, r.ManagedSystemRandom[qk] == 0) && forall(qk, 0, 16, r.ManagedSystemGUID[qk] == 0) && len(r.AuthCode) == 0
 
-// ---- rakp_message_4.go
+// ---- rakp_message_4.go (13.23)
 
 //@ func (*RAKPMessage4).NextLayerType
 //@ props C05
 
 //@ func (*RAKPMessage4).DecodeFromBytes
-//@ props C05 C17
+//@ props C05 C17 C07 C02
+//@ ensures [C07.rakp4-accept] (result == nil) == (len(data) >= 8)
+//@ ensures [C07.rakp4] result == nil ==> r.Tag == data[0] && r.Status == StatusCode(data[1]) && r.RemoteConsoleSessionID == le32(data, 4) &&
+//@    ite(data[1] == 0, sameBytes(r.ICV, data, 8, len(data)-8), len(r.ICV) == 0)
 
-// ---- record_type.go
-
-//@ func RecordType.NextLayerType
-//@ props C05
-
-// ---- reserve_sdr_repository.go
+// ---- reserve_sdr_repository.go (33.11)
 
 //@ func (*ReserveSDRRepositoryRsp).NextLayerType
 //@ props C05
 
 //@ func (*ReserveSDRRepositoryRsp).DecodeFromBytes
-//@ props C05 C17
+//@ props C05 C17 C07 C14
+//@ ensures [C07.reserve-accept] (result == nil) == (len(data) >= 2)
+//@ ensures [C07.reserve] result == nil ==> uint16(r.ReservationID) == le16(data, 0) && aliases(r.Contents, data, 0, 2)
 
-// ---- sdr.go
+// ---- sdr.go (43, record header)
 
 //@ func (*SDR).NextLayerType
 //@ props C05
 
 //@ func (*SDR).DecodeFromBytes
-//@ props C05 C17
+//@ props C05 C17 C07 C14
+//@ ensures [C07.sdr-accept] (result == nil) == (len(data) >= 5)
+//@ ensures [C07.sdr] result == nil ==> uint16(s.ID) == le16(data, 0) && s.Version == specBCDVersion(data[2]) && s.Type == RecordType(data[3]) && s.Length == data[4] &&
+//@    aliases(s.Contents, data, 0, 5) && aliases(s.Payload, data, 5, len(data))
 
 // ---- session_selector.go
 
@@ -202,31 +327,50 @@ package ipmi
 //@ props C05
 
 //@ func (*SessionSelector).DecodeFromBytes
-//@ props C05 C17
+//@ props C05 C17 C07
+//@ ensures [C07.selector-accept] (result == nil) == (len(data) >= 1)
+//@ ensures [C07.selector] result == nil ==> s.IsRMCPPlus == (data[0] == 6) && aliases(s.Payload, data, 0, len(data))
 
-// ---- set_session_privilege_level.go
+// ---- set_session_privilege_level.go (22.18)
 
 //@ func (*SetSessionPrivilegeLevelRsp).NextLayerType
 //@ props C05
 
 //@ func (*SetSessionPrivilegeLevelRsp).DecodeFromBytes
-//@ props C05 C17
+//@ props C05 C17 C07
+//@ ensures [C07.setpriv-accept] (result == nil) == (len(data) == 1)
+//@ ensures [C07.setpriv] result == nil ==> r.PrivilegeLevel == PrivilegeLevel(data[0]%16)
 
-// ---- v1session.go
+// ---- v1session.go (13.6, IPMI v1.5 wrapper)
 
 //@ func (*V1Session).NextLayerType
 //@ props C05
 
 //@ func (*V1Session).DecodeFromBytes
-//@ props C05 C17
+//@ props C05 C17 C07 C08
+//@ ensures [C07.v1-short] len(data) < 10 || (data[0] != 0 && len(data) < 26) ==> result != nil
+//@ ensures [C07.v1-accept] len(data) >= 26 || (len(data) >= 10 && data[0] == 0) ==> result == nil
+//@ ensures [C07.v1-head] result == nil ==> s.AuthType == AuthenticationType(data[0]) && s.Sequence == le32(data, 1) && s.ID == le32(data, 5)
+//@ ensures [C07.v1-noauth] result == nil && data[0] == 0 ==> s.Length == data[9] && forall(qk, 0, 16, s.AuthCode[qk] == 0) && aliases(s.Contents, data, 0, 10) && aliases(s.Payload, data, 10, len(data))
+//@ ensures [C07.v1-auth] result == nil && data[0] != 0 ==> s.Length == data[25] && forall(qk, 0, 16, s.AuthCode[qk] == data[9+qk]) && aliases(s.Contents, data, 0, 26) && aliases(s.Payload, data, 26, len(data))
 
-// ---- v2session.go
+// ---- v2session.go (13.6, RMCP+ wrapper)
 
 //@ func (*V2Session).NextLayerType
 //@ props C05
 
 //@ func (*V2Session).DecodeFromBytes
-//@ props C05 C17
+//@ props C05 C17 C07 C04 C08
 //@ config s.IntegrityAlgorithm, s.ConfidentialityLayerType
 //@ invariant 0 [v2.padscan] padStart <= offset && offset <= len(data) && forall(qk, padStart, offset-1, data[qk] == 0xff) &&
 //@    b == ite(offset == padStart, uint8(0xff), data[offset-1])
+//@ ensures [C07.v2-short] len(data) < 12 || data[0] != 6 ==> result != nil
+//@ ensures [C07.v2-oemshort] len(data) >= 12 && data[1]%64 == 2 && len(data) < 18 ==> result != nil
+//@ ensures [C07.v2-length] len(data) >= 18 && 18+int(le16(data, 16)) > len(data) && data[1]%64 == 2 ==> result != nil
+//@ ensures [C07.v2-length-std] len(data) >= 12 && data[1]%64 != 2 && 12+int(le16(data, 10)) > len(data) ==> result != nil
+//@ ensures [C07.v2-flags] result == nil ==> s.Encrypted == bit(data[1], 7) && s.Authenticated == bit(data[1], 6) && s.PayloadType == PayloadType(data[1]%64)
+//@ ensures [C07.v2-std] result == nil && data[1]%64 != 2 ==> s.Enterprise == 0 && s.PayloadID == 0 && s.ID == le32(data, 2) && s.Sequence == le32(data, 6) && s.Length == le16(data, 10) &&
+//@    aliases(s.Contents, data, 0, 12) && aliases(s.Payload, data, 12, 12+int(s.Length))
+//@ ensures [C07.v2-oem] result == nil && data[1]%64 == 2 ==> uint32(s.Enterprise) == le32(data, 2) && s.PayloadID == le16(data, 6) && s.ID == le32(data, 8) && s.Sequence == le32(data, 12) &&
+//@    s.Length == le16(data, 16) && aliases(s.Contents, data, 0, 18) && aliases(s.Payload, data, 18, 18+int(s.Length))
+//@ ensures [C04.v2-unauth] result == nil && !bit(data[1], 6) ==> s.Pad == 0 && len(s.Signature) == 0
